@@ -21,7 +21,8 @@ func init() {
 			"R3 receiver discipline: every result received from a member is either returned together with its own cancel function (never after that cancel was called) or its cancel is called on every path; a success is returned as soon as it is received; " +
 			"R4 cancel ownership: runRead calls the returned cancel before returning; the blob-reader variant calls it on the error path and otherwise stores it in the returned reader, whose Close closes the underlying reader and then calls it; " +
 			"R5 an error that was not received from a member is returned only on the `<-ctx.Done()` arm. " +
-			"R4b blobReader.Close cancels on every path; every caller of runReadWithCancel cancels, hands the cancel to the returned reader, or returns it; R6 (as C15.R6).",
+			"R4b blobReader.Close cancels on every path; every caller of runReadWithCancel cancels, hands the cancel to the returned reader, or returns it; R6 (as C15.R6). " +
+			"R7 inside a read helper's callback every member call uses the context handed to the callback.",
 		NotDecided: "wall-clock behaviour of slow members and actual goroutine scheduling are not decided; the rules decide the shape that makes every answer order and cancellation point leak-free.",
 		Technique:  "static analysis: goroutine/channel shape on SSA (select arms, deferred close), typestate of received results, dominance",
 	})
